@@ -136,8 +136,9 @@ def run(ctx):
         if mode == "table":
             # every case of this stream runs the complete 6x6x6 fault table
             loads = sum(1 for idx in r.order for op in r.ops[idx] if op.startswith("load "))
-            complete = all(sum(1 for op in r.ops[idx] if op.startswith("load ")) == 216 for idx in r.order) and len(r.order) > 0
-            ctx.oblige("coverage:fault-table-complete", "coverage", complete, "%d loads in %d cases (216 per case)" % (loads, len(r.order)))
+            # (plus five loads whose paths are other spellings of missing / unreadable files)
+            complete = all(sum(1 for op in r.ops[idx] if op.startswith("load ")) >= 216 for idx in r.order) and len(r.order) > 0
+            ctx.oblige("coverage:fault-table-complete", "coverage", complete, "%d loads in %d cases (at least the 216 of the table per case)" % (loads, len(r.order)))
             ctx.exhaustive = complete
             eacces = ctx.cov["distribution"].get(name + ".eacces-via-setfsuid", 0)
             ctx.oblige("coverage:permission-denied-exercised", "coverage", eacces > 0, "%d loads ran with a genuinely unreadable file (EACCES)" % eacces)
